@@ -28,7 +28,7 @@ ENGINES = [
     {
         "name": "E1-enumerator",
         "path": "mc/par.py",
-        "serves_properties": ["C01", "C03", "C04", "C05", "C06", "C07", "C08", "C09", "C10", "C12", "C13", "C14", "C15", "C16", "C17"],
+        "serves_properties": ["C01", "C03", "C04", "C05", "C06", "C07", "C08", "C09", "C10", "C11", "C12", "C13", "C14", "C15", "C16", "C17"],
         "kind_free_text": "bounded-exhaustive enumeration of a closed input space, sharded over 16 processes, every case "
         "executed on the real code and compared with a reference model",
     },
@@ -215,6 +215,15 @@ CHECKS = [
         "text": "All 32000 combinations of the four environment variables (incl. malformed values) x importable-module subsets against a decision-table model (+40 in fresh interpreters), and all histories of <=3 events over 47 configuration/graph-call/solve-call events with spies on every backend entry point.",
         "design_ref": "DESIGN.md section 2, C20",
         "note": "Optional modules simulated through sys.modules; the decision table is my transcription of the property.",
+    },
+    {
+        "id": "C11",
+        "engine": "E1-enumerator",
+        "category": "exploration",
+        "technique": "bounded-exhaustive enumeration of boards x clue layouts per puzzle (cap rule), each solved by the real solve_<puzzle> and compared with an independent brute-force rule oracle enumerating ALL rule-obeying answers",
+        "text": "For each of the 26 bundled puzzles a shape ladder (smallest boards first, both orientations, 1xN / Nx1 where the format allows) x all clue layouts with <= k clues under a per-shape cap; an independent rule module (mc/rules/<puzzle>.py) enumerates every rule-obeying answer; required: is_sat == (a solution exists) and each answer-key cell decided exactly when all solutions agree, with the agreed value; each module's published example must be solvable.",
+        "design_ref": "DESIGN.md section 2, C11 and appendix A",
+        "note": "'Published rules' are my transcription (appendix A); ambiguity envelope: nurikabe black region empty or not, aquarium water level per part vs per room, heyawake three-room rule read as 'at most one border crossed'. Boards beyond the ladders are not executed.",
     },
     {
         "id": "C13",
